@@ -277,7 +277,23 @@ public:
     const XalanDOMString*
     getPrefixForNamespace(const XalanDOMString&     theURI) const
     {
-        return findEntry(theURI, &value_type::getPrefixForNamespace);
+        const XalanDOMString* const     thePrefix =
+            findEntry(theURI, &value_type::getPrefixForNamespace);
+
+        if (thePrefix != 0)
+        {
+            // The prefix cannot be used if a nested scope
+            // has bound it to another namespace.
+            const XalanDOMString* const     theNamespace =
+                getNamespaceForPrefix(*thePrefix);
+
+            if (theNamespace == 0 || !(*theNamespace == theURI))
+            {
+                return 0;
+            }
+        }
+
+        return thePrefix;
     }
 
     /**
